@@ -61,7 +61,15 @@ Definition is_some {A} (o : option A) : bool := match o with Some _ => true | No
 Definition all_defined (subs : list (str * option Qc)) : bool := forallb (fun nv => is_some (snd nv)) subs.
 Definition paren (e : str) : str := 40 :: e ++ [41].
 
+(* Which repairs of /repo the model follows.  [cfg_now] is the code as it is; [cfg_old] is the code before the fix:
+   commits 43c33bac (filter 0), 3f873560 (Unitary name / polarisation), 59614844 (detector `compress` keyword),
+   1cc940de (`params or dict()`), fde9e721 (symbolic matrix order), kept so that the historical witnesses still compile. *)
+Record cfg := mkcfg { fix_filter : bool; fix_unitary : bool; fix_detkw : bool; fix_table : bool; fix_symm : bool }.
+Definition cfg_now : cfg := mkcfg true true true true true.
+Definition cfg_old : cfg := mkcfg false false false false false.
+
 Section Codec.
+Variable cf : cfg.
 (* float(expression) when every sub-parameter has a value: sympy's evaluation is outside the model *)
 Variable ev : str -> Qc.
 
@@ -148,7 +156,9 @@ Definition transpose (m : list (list str)) : list (list str) :=
 Definition enc_mat (m : matrix) : wmat :=
   match m with
   | MNum r => mkwmat (len r) (ncols r) (WMNum (concat r))
-  | MSym r => mkwmat (len r) (ncols r) (WMSym (concat (transpose r)))   (* `for x in m.vec()`: sympy stacks COLUMNS *)
+  | MSym r => mkwmat (len r) (ncols r)
+                (WMSym (if fix_symm cf then concat r                 (* row-major, as it is read back (fde9e721) *)
+                        else concat (transpose r)))                  (* old: `for x in m.vec()`, sympy stacks COLUMNS *)
   end.
 (* the loop of _deserialize_numeric: row.append(x); if len(row) == ncols: array.append(row); row = [] *)
 Fixpoint chunk {A} (nc : Z) (row : list A) (d : list A) : list (list A) :=
@@ -285,8 +295,9 @@ Definition expr_names (ds : list dparam) : list str := flat_map (fun d => match 
 Fixpoint nodupb (l : list str) : bool :=
   match l with [] => true | x :: r => negb (existsb (str_eqb x) r) && nodupb r end.
 (* CircuitBuilder.deserialize + deserialize_circuit.  [path] = position of this node in the tree (innermost first),
-   [sc] = identity of the name table in use, [k] its content.  `self._params = params or dict()`: an EMPTY table given
-   by the caller is replaced by a fresh one that the caller never sees. *)
+   [sc] = identity of the name table in use, [k] its content.  Now `params if params is not None else dict()`: a nested
+   builder always shares the caller's table.  Before 1cc940de it was `params or dict()`: an EMPTY table given by the
+   caller was replaced by a fresh one that the caller never saw. *)
 Fixpoint dec_comp (path : list nat) (sc : scope) (w : wcomp) (k : table) {struct w} : option (dcomp * table) :=
   match w with
   | WLeaf _ _ kd ps =>
@@ -295,15 +306,23 @@ Fixpoint dec_comp (path : list nat) (sc : scope) (w : wcomp) (k : table) {struct
       | None => None
       end
   | WPerm _ _ p => Some (DPerm p, k)
-  | WUnit _ _ u _ _ =>                              (* deserialize_unitary: comp.Unitary(U=m); name, use_polarization unread *)
-      match dec_mat u with Some (MNum m) => Some (DUnit m UNITARY false, k) | _ => None end
+  | WUnit _ _ u name pol =>
+      match dec_mat u with
+      | Some (MNum m) =>
+          if fix_unitary cf then       (* Unitary(U=m, name=serial.name or None, use_polarization=serial.use_polarization) *)
+            if pol && negb (Z.even (len m)) then None          (* "Polarization matrix should have an even number of rows" *)
+            else Some (DUnit m (if truthy name then name else UNITARY) pol, k)
+          else Some (DUnit m UNITARY false, k)                 (* old: comp.Unitary(U=m), name and use_polarization unread *)
+      | _ => None
+      end
   | WPBS _ _ => Some (DPBS, k)
   | WBarrier _ nm v => Some (DBarrier nm v, k)
   | WSub _ _ name n_mode items =>
-      let sc' := if is_nil k then path else sc in
+      let priv := negb (fix_table cf) && is_nil k in      (* old: `params or dict()` replaced an EMPTY table by a private one *)
+      let sc' := if priv then path else sc in
       match dec_items (fun pos w' k' => dec_comp (pos :: path) sc' w' k') 0 items k with
       | Some (ds, k') =>
-          if build n_mode ds [] then Some (DSub (if truthy name then name else CPLX) n_mode ds, if is_nil k then [] else k')
+          if build n_mode ds [] then Some (DSub (if truthy name then name else CPLX) n_mode ds, if priv then [] else k')
           else None
       | None => None
       end
@@ -430,7 +449,10 @@ Record wexp := mkwexp {
   we_comps : list wcomp }.
 Definition VALUE_NOT_SET : Z := 268435455.
 Definition enc_filter (f : option Z) : Z :=
-  match f with Some n => if n =? 0 then VALUE_NOT_SET else n | None => VALUE_NOT_SET end.   (* `if experiment.min_photons_filter:` *)
+  match f with
+  | Some n => if negb (fix_filter cf) && (n =? 0) then VALUE_NOT_SET else n   (* now `is not None`; old: `if ...filter:` *)
+  | None => VALUE_NOT_SET
+  end.
 Definition enc_input (i : input) : input := match i with InBS b => InBS b | InSVD d => InSVD (enc_svd d) end.
 Definition enc_exp (e : experiment) : wexp :=
   mkwexp (option_map enc_input (e_input e)) (e_name e) (option_map enc_noise (e_noise e)) (e_post e)
